@@ -136,12 +136,28 @@ theorem mem_mappings_source {s : Source} {f : Final} (hs : FinalShape s f)
       exact ⟨g.name, g', hget, hg', hm.2.2 ▸ hcp⟩
 
 /-- positions in a duplicate-free list determine the element and vice versa -/
-theorem getElem?_inj_of_nodup {l : List String} (hnd : l.Nodup) {i j : Nat} {x : String}
-    (hi : l[i]? = some x) (hj : l[j]? = some x) : i = j := by
-  have hi' := List.getElem?_eq_some_iff.mp hi
-  have hj' := List.getElem?_eq_some_iff.mp hj
-  obtain ⟨hil, hix⟩ := hi'
-  obtain ⟨hjl, hjx⟩ := hj'
-  exact (List.Nodup.getElem_inj_iff hnd).mp (hix.trans hjx.symm)
+theorem getElem?_inj_of_nodup : ∀ {l : List String}, l.Nodup → ∀ {i j : Nat} {x : String},
+    l[i]? = some x → l[j]? = some x → i = j
+  | [], _, i, j, x, hi, _ => by simp at hi
+  | y :: ys, hnd, i, j, x, hi, hj => by
+    have hy : y ∉ ys := (List.nodup_cons.mp hnd).1
+    cases i with
+    | zero =>
+      cases j with
+      | zero => rfl
+      | succ j' =>
+        simp only [List.getElem?_cons_zero, Option.some.injEq, List.getElem?_cons_succ] at hi hj
+        subst hi
+        exact absurd (List.mem_of_getElem? hj) hy
+    | succ i' =>
+      cases j with
+      | zero =>
+        simp only [List.getElem?_cons_zero, Option.some.injEq, List.getElem?_cons_succ] at hi hj
+        subst hj
+        exact absurd (List.mem_of_getElem? hi) hy
+      | succ j' =>
+        simp only [List.getElem?_cons_succ] at hi hj
+        have := getElem?_inj_of_nodup (List.nodup_cons.mp hnd).2 hi hj
+        omega
 
 end Fontc.GlyphOrder
